@@ -4,6 +4,8 @@ passlib.utils.binary - binary data encoding/decoding/manipulation
 
 from __future__ import annotations
 
+import threading
+
 from base64 import (
     b32decode as _b32decode,
 )
@@ -827,6 +829,10 @@ class Base64Engine:
         return self._encode_int(value, 64)
 
 
+#: guards LazyBase64Engine._lazy_init()
+_lazy_init_lock = threading.RLock()
+
+
 class LazyBase64Engine(Base64Engine):
     """Base64Engine which delays initialization until it's accessed"""
 
@@ -836,14 +842,24 @@ class LazyBase64Engine(Base64Engine):
         self._lazy_opts = (args, kwds)
 
     def _lazy_init(self):
-        args, kwds = self._lazy_opts
-        super().__init__(*args, **kwds)
-        del self._lazy_opts
-        self.__class__ = Base64Engine
+        # NOTE: serialized, so that threads making their first call concurrently
+        #       wait for the one doing the initialization instead of racing it.
+        with _lazy_init_lock:
+            opts = self._lazy_opts
+            if opts is None:
+                # already done by another thread
+                return
+            args, kwds = opts
+            super().__init__(*args, **kwds)
+            self.__class__ = Base64Engine
+            # NOTE: kept as an instance attribute (instead of deleted) for
+            #       threads that are still inside our __getattribute__().
+            self._lazy_opts = None
 
     def __getattribute__(self, attr):
-        if not attr.startswith("_"):
-            self._lazy_init()
+        if not attr.startswith("_") and self._lazy_opts is not None:
+            # NOTE: not self._lazy_init(): the class may just have been switched
+            LazyBase64Engine._lazy_init(self)
         return object.__getattribute__(self, attr)
 
 
